@@ -251,6 +251,21 @@ class Engine:
         self._record(ob)
         self.assume(goal)
 
+    def oblige_isolated(self, kind, hyps, goal, node=None, name=None):
+        """an obligation with extra local hypotheses that are NOT added to the path afterwards"""
+        if self.spec_mode:
+            return
+        ob = Obligation(name, kind, list(self.assumptions) + list(hyps), goal, getattr(node, 'lineno', None), '')
+        ob.path = list(self.trace[:self.pos])
+        self.solver.push()
+        for h in hyps:
+            self.solver.add(h)
+        try:
+            self._discharge(ob)
+        finally:
+            self.solver.pop()
+        self._record(ob)
+
     def _record(self, ob):
         k = ob.key()
         if k in self.seen:
@@ -749,6 +764,21 @@ class Engine:
         v = self.eval(s.value)
         for t in s.targets:
             self.assign(t, v)
+        if not self.spec_mode:
+            for t in s.targets:
+                for nm in ast.walk(t):
+                    if isinstance(nm, ast.Name):
+                        self.run_hook(('after_assign', nm.id), s)
+
+    def run_hook(self, anchor, node):
+        """proof script attached to a program point by the sidecar contract: a sequence of intermediate assertions,
+        each its own obligation (then assumed); induction steps have base and step obligations"""
+        hooks = dict(self.contract.get('proof') or {})
+        hooks.update(self.case.get('proof') or {})
+        h = hooks.get(anchor)
+        if h is None:
+            return
+        h(Proof(self, node, anchor))
 
     def st_AugAssign(self, s):
         cur = self.eval(_load(s.target))
@@ -756,7 +786,11 @@ class Engine:
         self.assign(s.target, v)
 
     def st_Return(self, s):
-        raise ReturnSig(self.eval(s.value) if s.value is not None else None)
+        v = self.eval(s.value) if s.value is not None else None
+        if not self.spec_mode:
+            self.st.env['__return__'] = v
+            self.run_hook(('before_return',), s)
+        raise ReturnSig(v)
 
     def st_Raise(self, s):
         cls = 'Exception'
@@ -1300,6 +1334,37 @@ def _has_quant(t):
         seen.add(i)
         stack.extend(x.children())
     return False
+
+
+class Proof:
+    """what a proof hook may do: state facts that are PROVED here (obligations), never assume anything"""
+
+    def __init__(self, E, node, anchor):
+        self.E = E
+        self.node = node
+        self.anchor = anchor
+        self.env = E.st.env
+        self.count = 0
+
+    def have(self, name, goal):
+        self.count += 1
+        self.E.oblige('proof', goal, self.node,
+                      name='%s/proof@%s:%s' % (self.E.fn_short, '-'.join(str(a) for a in self.anchor), name))
+
+    def induct(self, name, pred, lo, hi):
+        """forall i in [lo, hi]: pred(i), by induction on i: base pred(lo) (if lo <= hi), step pred(i) => pred(i+1) for
+        lo <= i < hi.  The conclusion is then available (the induction principle over the integers is the only thing
+        used that the solver does not check)."""
+        i = z3.Int(fresh_name('ind'))
+        tag = '%s/proof@%s:%s' % (self.E.fn_short, '-'.join(str(a) for a in self.anchor), name)
+        self.E.oblige('proof', z3.Implies(lo <= hi, pred(lo)), self.node, name=tag + '/base')
+        # the step is proved for an arbitrary i under the induction hypothesis, without polluting the path
+        self.E.oblige_isolated('proof', [z3.And(lo <= i, i < hi), pred(i)], pred(i + 1), self.node, name=tag + '/step')
+        j = z3.Int(fresh_name('j'))
+        self.E.assumptions_quant(z3.ForAll([j], z3.Implies(z3.And(lo <= j, j <= hi), pred(j))))
+
+    def rd(self, arr, i):
+        return self.E.rd(arr, i)
 
 
 class _NoDefault:
